@@ -166,6 +166,7 @@ type State struct {
 	defers []deferred
 	now    Term
 	dunk   bool // defers unknown after a merge
+	since  *Term
 }
 
 func (vc *VC) entryState() *State {
@@ -208,6 +209,15 @@ func (s *State) havocKeys(keys map[string]bool, all bool) *State {
 	return n
 }
 
+// havocSince: every heap object allocated at or after the stamp th may have changed.
+func (s *State) havocSince(th Term) *State {
+	n := &State{vc: s.vc, kind: stHavoc, m: map[string]Term{}, parent: s, id: s.vc.fresh("s"), defers: s.defers, dunk: s.dunk}
+	n.since = &th
+	n.now = s.vc.freshConst("now", sInt)
+	s.vc.assume(T(sBool, "(>= %s %s)", n.now.S, s.now.S))
+	return n
+}
+
 func (s *State) set(key string, t Term) {
 	s.m[key] = t
 }
@@ -238,8 +248,17 @@ func (s *State) get(key string) Term {
 		} else {
 			hit = s.keys[key] || (s.keys["*"] && heapKey(key))
 		}
+		if hit && s.since != nil && strings.HasPrefix(key, "G:") {
+			hit = false // callees with an allocation-time frame do not write globals
+		}
 		if hit {
 			res = s.vc.declare(smtName(key)+"!"+s.id, s.vc.compSort(key))
+			if s.since != nil {
+				// frame: objects allocated before the threshold are unchanged
+				old := s.parent.get(key)
+				s.vc.assume(T(sBool, "(forall ((r!q Int)) (! (=> (< (alloc r!q) %s) (= (select %s r!q) (select %s r!q))) :pattern ((select %s r!q))))",
+					s.since.S, res.S, old.S, res.S))
+			}
 		} else {
 			res = s.parent.get(key)
 		}
